@@ -37,7 +37,10 @@ CODES = {"Encrypt panicked": "panic", "Decrypt panicked": "panic", "Encrypt fail
          "the reference decrypts Tink's ciphertext to another plaintext": "reference-gets-other-plaintext",
          "Decrypt rejected a ciphertext the reference decrypts": "rejected-valid",
          "Decrypt accepted an input the reference rejects": "accepted-invalid",
-         "Decrypt returned another plaintext than the reference": "other-plaintext"}
+         "Decrypt returned another plaintext than the reference": "other-plaintext",
+         "a ciphertext returned by Encrypt changed while the caller kept it across later calls": "returned-ciphertext-changed",
+         "a plaintext returned by Decrypt changed while the caller kept it across later calls": "returned-plaintext-changed",
+         "the content of a retained ciphertext slice no longer decrypts to its plaintext": "retained-ciphertext-spoiled"}
 
 
 def signature(e, bad):
@@ -59,7 +62,7 @@ def judge(ctx, trace, replaying=False):
             open(part, "w").write("\n".join(lines[k:k + PART]) + "\n")
             if k == 0:
                 first = part
-        mm, nn = ctx.validate_events("Trace_Hybrid", part, heap="2g", max_findings=4, stage="T:Trace_Hybrid[%d]" % (k // PART))
+        mm, nn = ctx.validate_events("Trace_Hybrid", part, heap="2g", max_findings=2, timeout=3000, stage="T:Trace_Hybrid[%d]" % (k // PART))
         for m in mm:
             m["index"] += k
         mism += mm
@@ -127,7 +130,9 @@ def run(ctx):
         "failing wrong-context attempt on the same buffer (each call its own event), sessions on ONE primitive instance whose "
         "context info and plaintext / ciphertext come from ONE reused buffer each, overwritten in place between calls (same length "
         "with new contents, shorter, longer, empty, back; after a successful Decrypt the context buffer is overwritten with other "
-        "contents of the same length and the same ciphertext must then be rejected), and Decrypt of mutations of every region (prefix, encapsulated key incl. off-curve / small-order / "
+        "contents of the same length and the same ciphertext must then be rejected), sequences in which the slices RETURNED by "
+        "Encrypt / Decrypt are retained across 5+ later calls on the same primitive and then compared with their content at return "
+        "and decrypted again, and Decrypt of mutations of every region (prefix, encapsulated key incl. off-curve / small-order / "
         "negated points, payload, tag), of the context, with another private key, at cut points (all of them in the thorough tier "
         "for one ciphertext per configuration) and extensions; plus reference-made ciphertexts (TLC, chosen ephemeral keys) "
         "decrypted by Tink. Every event is judged by TLC against HPKE.tla / XWing.tla / ECIES.tla")
@@ -159,7 +164,8 @@ def run(ctx):
     ctx.cov["event_kinds"] = kinds
     for need in () if os.environ.get("VERIF_C06_FILTER") else ("encrypt/tink", "encrypt/tink-again-same-buffers", "decrypt/own", "decrypt/again-same-buffer",
                                                                   "decrypt/after-wrong-context-same-buffer", "encrypt/tink-2rawkeys", "decrypt/reference-made",
-                                                                  "encrypt/seq", "decrypt/seq-right", "decrypt/seq-context-overwritten", "decrypt/enc-flip", "decrypt/payload-flip",
+                                                                  "encrypt/seq", "decrypt/seq-right", "decrypt/seq-context-overwritten",
+                                                                  "encrypt/retained-output", "decrypt/retained-ciphertext", "decrypt/retained-plaintext", "decrypt/enc-flip", "decrypt/payload-flip",
                  "decrypt/prefix-start", "decrypt/info-flip", "decrypt/other-key", "decrypt/cut"):
         if not kinds.get(need):
             raise vlib.Infra("coverage hole: no %s event was recorded" % need)
